@@ -157,3 +157,8 @@ Fixpoint run_reqs (fresh : nat -> nat -> N) (i : nat) (m : proj) (reqs : list (b
   | [] => m
   | (nm, n) :: r => run_reqs fresh (S i) (scale_proj (fresh i) m nm n) r
   end.
+
+(* the name function on binary numbers (same body; lemma replica_name_N_eq), used to evaluate the
+   name function far beyond the counts for which replicas can actually be created *)
+Definition replica_name_N (b : bytes) (reps num : N) : bytes :=
+  if (reps <=? 1)%N then b else b ++ [45%N] ++ pad (width reps) num.
